@@ -45,7 +45,7 @@ UNARY_CONSTRAINTS = [None, None, None, "to_output_scale", "to_grad_input_scale",
 TERNARY_CONSTRAINTS = [None, None, None, "to_output_scale", "to_left_grad_scale", "to_right_grad_scale", "gmean", "hmean",
                        "amean"]
 ATOMS = ["gelu", "silu", "softmax", "dropout", "layer_norm", "rms_norm", "linear", "linear_readout", "matmul",
-         "add", "add_scalar", "add_bcast", "residual", "silu_glu", "sdpa", "conv1d", "scale", "graph_break"]
+         "add", "add_scalar", "add_bcast", "add_mutual", "residual", "silu_glu", "sdpa", "conv1d", "scale", "graph_break"]
 MODULES = ["Linear", "MLP", "MHSA", "TransformerLayer", "LayerNorm", "RMSNorm", "GELU", "SiLU", "Softmax",
            "LinearReadout", "DepthSequential", "Embedding", "Conv1d", "Dropout", "TransformerDecoder", "CrossEntropyLoss",
            "DepthModuleList"]
@@ -76,7 +76,7 @@ def _gen_atom(r: Any, first: bool) -> Dict[str, Any]:
     k = r.choice(ATOMS)
     a: Dict[str, Any] = {"atom": k}
     if k in ("gelu", "silu", "softmax"):
-        a["mult"] = r.choice([1.0, 1.0, 0.25, 4.0])
+        a["mult"] = r.choice([1.0, 1.0, 0.25, 4.0, 1, 2])  # ints too: the library branches on `mult == 1`
         a["constraint"] = r.choice(UNARY_CONSTRAINTS)
         if k == "gelu":
             a["approximate"] = r.choice(["none", "tanh"])
@@ -90,10 +90,10 @@ def _gen_atom(r: Any, first: bool) -> Dict[str, Any]:
     elif k == "matmul":
         a["dout"] = r.choice([3, 4, 8])
         a["constraint"] = r.choice(TERNARY_CONSTRAINTS)
-    elif k in ("add", "add_bcast"):
+    elif k in ("add", "add_bcast", "add_mutual"):
         a["constraint"] = r.choice(TERNARY_CONSTRAINTS)
     elif k == "residual":
-        a["tau"] = r.choice([0.5, 1.0, 0.01])
+        a["tau"] = r.choice([0.5, 1.0, 0.01, 1, 2])
         a["inner"] = r.choice(["gelu", "linear", "softmax"])
     elif k == "silu_glu":
         a["mult"] = r.choice([1.0, 0.25, 4.0])
@@ -117,7 +117,8 @@ def _gen_call(r: Any, dtypes: List[str]) -> Dict[str, Any]:
     nb = r.choice([1, 2, 2, 3])
     return {"op": "call", "batch": [r.choice([1, 2, 3, 5]) for _ in range(nb)], "D": r.choice([4, 6, 8]),
             "dtype": r.choice(dtypes), "mode": r.choice(["bwd", "bwd", "bwd", "fwd", "nograd"]),
-            "mask": r.randrange(1, 64), "tseed": r.randrange(1 << 30), "noncontig": r.random() < 0.2}
+            "mask": r.randrange(1, 64), "tseed": r.randrange(1 << 30), "noncontig": r.random() < 0.2,
+            "alias": r.random() < 0.1}
 
 
 def generate(seed: int, tier: str, phase: str) -> Dict[str, Any]:
@@ -356,7 +357,7 @@ def build(plan: Dict[str, Any]) -> Built:
                 cur = cur[:-1] + [a["dout"]]
             elif k in ("add", "silu_glu"):
                 shapes.append(("x", tuple(cur)))
-            elif k == "add_bcast":
+            elif k in ("add_bcast", "add_mutual"):
                 shapes.append(("x", (d,)))
             elif k == "residual" and a["inner"] == "linear":
                 shapes.append(("w", (d, d)))
@@ -415,6 +416,9 @@ def build(plan: Dict[str, Any]) -> Built:
                 x = U.matmul(x, next(it), constraint=a["constraint"])
             elif k in ("add", "add_bcast"):
                 x = U.add(x, next(it), constraint=a["constraint"])
+            elif k == "add_mutual":
+                # both operands are expanded: [..., 1] + [d] (the result is larger than either)
+                x = U.add(x[..., :1], next(it), constraint=a["constraint"])
             elif k == "add_scalar":
                 x = U.add(x, 2.5)
             elif k == "residual":
@@ -489,9 +493,20 @@ def build(plan: Dict[str, Any]) -> Built:
 # execution
 
 
-def _prep(args: List[Any], mask: int, mode: str, noncontig: bool = False) -> List[Any]:
+def _prep(args: List[Any], mask: int, mode: str, noncontig: bool = False, alias: bool = False) -> List[Any]:
     out = []
     j = 0
+    if alias:
+        # the same tensor object passed for two arguments of equal shape (inputs that alias each other)
+        args = list(args)
+        for i2 in range(1, len(args)):
+            if args[i2].is_floating_point() and args[0].is_floating_point() and args[i2].shape == args[0].shape:
+                first = args[0].detach().clone()
+                if mode == "bwd":
+                    first.requires_grad_()
+                rest = _prep(args[1:i2] + args[i2 + 1:], mask, mode, noncontig)
+                return [first] + rest[: i2 - 1] + [first] + rest[i2 - 1:]
+
     for t in args:
         c = t.detach().clone()
         if noncontig and c.dim() >= 2 and c.is_floating_point():
@@ -692,7 +707,8 @@ def execute(plan: Dict[str, Any]) -> Dict[str, Any]:
                 nc = bool(op.get("noncontig"))
                 if nc:
                     probe("noncontiguous_inputs")
-                ea = _prep(args, op["mask"], op["mode"], nc)
+                al = bool(op.get("alias"))
+                ea = _prep(args, op["mask"], op["mode"], nc, al)
                 try:
                     want = _call(built.fn, built.module, ea, op["mode"], op["tseed"] % 1000)
                 except Exception as e:
@@ -700,7 +716,7 @@ def execute(plan: Dict[str, Any]) -> Dict[str, Any]:
                     fault("call.eager_fails", True)
                     continue
                 before = (counters["stats"]["unique_graphs"], counters["frames"]["total"], counters["frames"]["ok"])
-                ca = _prep(args, op["mask"], op["mode"], nc)
+                ca = _prep(args, op["mask"], op["mode"], nc, al)
                 try:
                     got = _call(cfn, built.module, ca, op["mode"], op["tseed"] % 1000)
                 except Exception as e:
